@@ -149,7 +149,14 @@ pub struct ScrutBlk {
     /// fence is at least as long as the opening fence); 3 = same length plus a tailing blank
     #[serde(default)]
     pub close_extra: u8,
+    /// lines between the leading comments and the `$` line (the line parser reads them as
+    /// expectations that precede the command; the documentation does not speak about them)
+    #[serde(default)]
+    pub pre: Vec<String>,
 }
+
+/// lines that may stand before the `$` line: no comment, command, continuation or exit code
+pub const PRE_LINES: &[&str] = &["", "stray text", "  ", "leftover (glob?)"];
 
 pub fn closing_fence(n: u8, close_extra: u8) -> String {
     match close_extra {
@@ -241,6 +248,8 @@ pub struct ExpectedTest {
     pub closed_at: usize,
     /// 0-based index of the opening fence line
     pub opened_at: usize,
+    /// how many of the leading `expectations` stand before the `$` line
+    pub pre_count: usize,
 }
 
 pub struct Rendered {
@@ -278,11 +287,15 @@ fn push_scrut(lines: &mut Vec<String>, b: &ScrutBlk, cfg_suffix: &str, lang_suff
     for c in &b.comments {
         lines.push(c.clone());
     }
+    let mut exps = vec![];
+    for l in &b.pre {
+        lines.push(l.clone());
+        exps.push(l.clone());
+    }
     let cmd_line = lines.len();
     for (i, c) in b.cmd.iter().enumerate() {
         lines.push(format!("{}{}", if i == 0 { "$ " } else { "> " }, c));
     }
-    let mut exps = vec![];
     let mut body: Vec<(bool, String)> = b.body.iter().map(|l| (false, l.clone())).collect();
     let mut exit = None;
     if let Some((code, pos)) = b.exit {
@@ -393,6 +406,7 @@ pub fn render(doc: &Doc) -> Rendered {
                     title,
                     closed_at,
                     opened_at,
+                    pre_count: b.pre.len(),
                 });
             }
             Blk::Foreign { fence: f, info, body, close_extra } => {
@@ -465,6 +479,7 @@ pub fn render(doc: &Doc) -> Rendered {
                 title: TitleExpect::Unasserted,
                 closed_at: usize::MAX,
                 opened_at,
+                pre_count: b.pre.len(),
             });
         }
     }
@@ -604,8 +619,9 @@ pub fn scrut_blk() -> BoxedStrategy<ScrutBlk> {
         body_strategy(),
         proptest::option::weighted(0.3, (prop_oneof![Just(0u8), Just(1u8), any::<u8>()], any::<u16>())),
         prop_oneof![6 => Just(0u8), 1 => Just(1u8), 1 => Just(2u8), 1 => Just(3u8)],
+        prop_oneof![9 => Just(vec![]), 1 => vec(proptest::sample::select(PRE_LINES.to_vec()).prop_map(String::from), 1..3)],
     )
-        .prop_map(|(fence, pad, cfg, comments, c0, cont, body, exit, close_extra)| {
+        .prop_map(|(fence, pad, cfg, comments, c0, cont, body, exit, close_extra, pre)| {
             let mut cmd = vec![c0.to_string()];
             cmd.extend(cont);
             ScrutBlk {
@@ -617,6 +633,7 @@ pub fn scrut_blk() -> BoxedStrategy<ScrutBlk> {
                 body,
                 exit,
                 close_extra,
+                pre,
             }
         })
         .boxed()
